@@ -464,6 +464,81 @@ fn main() {
                 let b = guard(|| json!(Model::read_slice(pre).is_ok()));
                 json!({"read": a, "read_slice": b, "len": bytes.len()})
             }),
+            "model_prefix_scan" => guard(|| {
+                // every proper byte prefix of the serialised model must be rejected by read and read_slice, without panicking
+                let bytes = models.get(&s(&op["model"])).cloned().unwrap_or_default();
+                let mut bad = vec![];
+                for cut in 0..bytes.len() {
+                    let pre = &bytes[..cut];
+                    match catch_unwind(AssertUnwindSafe(|| Model::read(&mut &pre[..]).is_ok())) {
+                        Ok(false) => {}
+                        Ok(true) => bad.push(json!([cut, "read accepted a proper prefix"])),
+                        Err(_) => bad.push(json!([cut, "read panicked"])),
+                    }
+                    match catch_unwind(AssertUnwindSafe(|| Model::read_slice(pre).is_ok())) {
+                        Ok(false) => {}
+                        Ok(true) => bad.push(json!([cut, "read_slice accepted a proper prefix"])),
+                        Err(_) => bad.push(json!([cut, "read_slice panicked"])),
+                    }
+                }
+                bad.truncate(20);
+                json!({"len": bytes.len(), "bad": bad})
+            }),
+            "model_header" => guard(|| {
+                let mut bytes = models.get(&s(&op["model"])).cloned().unwrap_or_default();
+                let hdr = u8s(&op["header"]);
+                let differs = hdr[..] != bytes[..hdr.len().min(bytes.len())];
+                for (d, h) in bytes.iter_mut().zip(hdr.iter()) {
+                    *d = *h;
+                }
+                let a = guard(|| json!(Model::read(&mut &bytes[..]).is_ok()));
+                let b = guard(|| json!(Model::read_slice(&bytes).is_ok()));
+                json!({"differs": differs, "read": a, "read_slice": b})
+            }),
+            "model_faults" => guard(|| {
+                // a reader that fails after n bytes / a writer that fails after n bytes, for every n
+                struct FailingReader<'a> { data: &'a [u8], pos: usize, limit: usize }
+                impl<'a> std::io::Read for FailingReader<'a> {
+                    fn read(&mut self, buf: &mut [u8]) -> std::io::Result<usize> {
+                        if self.pos >= self.limit {
+                            return Err(std::io::Error::new(std::io::ErrorKind::Other, "injected"));
+                        }
+                        let n = buf.len().min(self.limit - self.pos).min(self.data.len() - self.pos);
+                        buf[..n].copy_from_slice(&self.data[self.pos..self.pos + n]);
+                        self.pos += n;
+                        Ok(n)
+                    }
+                }
+                struct FailingWriter { written: usize, limit: usize }
+                impl std::io::Write for FailingWriter {
+                    fn write(&mut self, buf: &[u8]) -> std::io::Result<usize> {
+                        if self.written >= self.limit {
+                            return Err(std::io::Error::new(std::io::ErrorKind::Other, "injected"));
+                        }
+                        let n = buf.len().min(self.limit - self.written);
+                        self.written += n;
+                        Ok(n)
+                    }
+                    fn flush(&mut self) -> std::io::Result<()> { Ok(()) }
+                }
+                let bytes = models.get(&s(&op["model"])).cloned().unwrap_or_default();
+                let model = Model::read(&mut &bytes[..]).expect("model");
+                let mut bad = vec![];
+                for limit in 0..bytes.len() {
+                    match catch_unwind(AssertUnwindSafe(|| Model::read(FailingReader { data: &bytes, pos: 0, limit }).is_ok())) {
+                        Ok(false) => {}
+                        Ok(true) => bad.push(json!([limit, "read succeeded although the reader failed"])),
+                        Err(_) => bad.push(json!([limit, "read panicked"])),
+                    }
+                    match catch_unwind(AssertUnwindSafe(|| model.write(FailingWriter { written: 0, limit }).is_ok())) {
+                        Ok(false) => {}
+                        Ok(true) => bad.push(json!([limit, "write succeeded although the writer failed"])),
+                        Err(_) => bad.push(json!([limit, "write panicked"])),
+                    }
+                }
+                bad.truncate(20);
+                json!({"len": bytes.len(), "bad": bad})
+            }),
             "model_read_raw" => guard(|| {
                 let bytes = u8s(&op["bytes"]);
                 let a = guard(|| json!(Model::read(&mut &bytes[..]).is_ok()));
